@@ -22,6 +22,7 @@ import (
 	"verifharness/fixref"
 	"verifharness/rig"
 	"verifharness/vk"
+	"verifharness/wire"
 )
 
 // slowStore delegates to the bundled store and sleeps a little inside every call
@@ -169,6 +170,15 @@ func scenario(c *vk.Ctx, i int) {
 			G = 4
 		}
 	}
+	// every sixth scenario: a large outgoing buffer, messages of 1.5 kB and a peer that does not read at all during
+	// the first 1.3 s — several hundred kB are queued when the writer gets going again
+	backlog := (i/2)%6 == 3
+	pad := ""
+	if backlog {
+		buf = 512
+		pad = strings.Repeat("p", 1500)
+		c.Count("scenarios_with_a_backlog_of_several_hundred_kB", 1)
+	}
 	c0 := 0
 	if r.Intn(3) == 0 {
 		c0 = r.Intn(500)
@@ -176,7 +186,7 @@ func scenario(c *vk.Ctx, i int) {
 	}
 	slowPeer := []time.Duration{0, 100 * time.Microsecond, 300 * time.Microsecond}[r.Intn(3)]
 	reuse := (i/2)%2 == 1 // every sender goroutine builds one message object and sends that object M times
-	desc := fmt.Sprintf("%s reusedObjects=%v flood=%v G=%d M=%d buf=%d chatty=%v storeDelayMaxUs=%d peerReadsEvery=%v c0=%d GOMAXPROCS=%d #%d", role, reuse, flood, G, M, buf, chatty, st.maxUs, slowPeer, c0, runtime.GOMAXPROCS(0), i)
+	desc := fmt.Sprintf("%s reusedObjects=%v flood=%v backlog=%v G=%d M=%d buf=%d chatty=%v storeDelayMaxUs=%d peerReadsEvery=%v c0=%d GOMAXPROCS=%d #%d", role, reuse, flood, backlog, G, M, buf, chatty, st.maxUs, slowPeer, c0, runtime.GOMAXPROCS(0), i)
 	_ = desc
 	replay := map[string]interface{}{"scenario": desc, "index": i, "seed": c.Seed}
 	holdCh := make(chan struct{})
@@ -232,6 +242,13 @@ func scenario(c *vk.Ctx, i int) {
 		slowPeer = 300 * time.Microsecond
 	}
 	l.Conn.SetWriteDelay(slowPeer) // a peer that reads slowly: the outgoing buffer fills up during bursts
+	if backlog {
+		l.Conn.SetWriteMode(wire.WriteStall)
+		go func() {
+			time.Sleep(1300 * time.Millisecond)
+			l.Conn.SetWriteMode(wire.WriteAccept)
+		}()
+	}
 	// senders: bursts whose start times are spread across the 1 s heartbeat and 2 s test-request expiries
 	var mu sync.Mutex
 	var sends []sendRec
@@ -243,12 +260,12 @@ func scenario(c *vk.Ctx, i int) {
 			defer wg.Done()
 			rr := rand.New(rand.NewSource(int64(i*100 + g)))
 			time.Sleep(time.Duration(rr.Intn(900)) * time.Millisecond)
-			own := fixgen.CreateMarketDataRequestReject(fmt.Sprintf("g%d-reused", g))
+			own := fixgen.CreateMarketDataRequestReject(fmt.Sprintf("g%d-reused%s", g, pad))
 			for k := 0; k < M; k++ {
 				if !flood && rr.Intn(4) == 0 {
 					time.Sleep(time.Duration(rr.Intn(700)) * time.Millisecond)
 				}
-				m := fixgen.CreateMarketDataRequestReject(fmt.Sprintf("g%d-%d", g, k))
+				m := fixgen.CreateMarketDataRequestReject(fmt.Sprintf("g%d-%d%s", g, k, pad))
 				if reuse {
 					m = own
 				}
